@@ -42,8 +42,8 @@ def module_bench(name, module_name, clk_freq, rate, speedgrade=None, bankbits=1,
     def extra(core, top, mon, kw):
         kw["bads"] = {k: v for k, v in mon.bads.items() if k in TIMING_BADS}
         cov = Signal()
-        top.comb += cov.eq(mon.now["act"] & mon.seen["ref"] & mon.seen["wr"] & mon.seen["rd"])
-        kw["covers"]["act_after_refresh_with_rd_and_wr_before"] = cov
+        top.comb += cov.eq(mon.now["ref"] & mon.seen["wr"] & mon.seen["rd"] & mon.seen["act"])
+        kw["covers"]["refresh_issued_after_reads_and_writes"] = cov
         prea_open = Signal()
         top.comb += prea_open.eq(mon.now["prea"] & monitors.any_([o for r in mon.open for o in r]))
         kw["covers"]["refresh_precharge_all_closes_an_open_row"] = prea_open
